@@ -187,7 +187,14 @@ Proof.
   rewrite (step_env_nth s o i Tn), Hn. cbn [option_map].
   destruct (targets o i) eqn:Tg.
   - exists (env_link o l). split; [reflexivity|].
-    split; [|destruct o; cbn; try discriminate; intros _; reflexivity].
+    split.
+    2:{ assert (TJ : forall j, op_target o = Some j -> (j =? Z.of_nat i) = true).
+        { intros j Ej. unfold targets in Tg. rewrite Ej in Tg. apply andb_true_iff in Tg as [T1 T2].
+          apply Nat.eqb_eq in T2. lia. }
+        destruct o; cbn [cum_on env_link op_target] in *; try discriminate; try (intros _; reflexivity);
+          rewrite (TJ _ eq_refl); cbn [andb negb]; try discriminate.
+        (* SRTLA ACK on this link: constrained only when not earned *)
+        destruct known; cbn [negb andb]; [discriminate|intros _; reflexivity]. }
     assert (R : (exists j, o = OReset j) \/ (forall j, o <> OReset j)).
     { destruct o; try (right; intros j0 Hc; discriminate). left; eauto. }
     destruct R as [[j ->] | NR].
